@@ -10,6 +10,7 @@ import (
 	"math/rand/v2"
 	"runtime"
 	"slices"
+	"strings"
 	"sync"
 	"testing/synctest"
 	"time"
@@ -301,9 +302,23 @@ func c01Check(r *ev.Run, id string, sc *c01Scenario) {
 	r.Distinct(fmt.Sprint(*sc))
 }
 
+// firstWord turns an error text into a stable signature fragment: digits and quoted
+// names removed, cut to 48 characters.
 func firstWord(s string) string {
-	if len(s) > 40 {
-		s = s[:40]
+	var b []rune
+	inq := false
+	for _, c := range s {
+		switch {
+		case c == '"':
+			inq = !inq
+		case inq, c >= '0' && c <= '9':
+		default:
+			b = append(b, c)
+		}
+	}
+	s = strings.Join(strings.Fields(string(b)), " ")
+	if len(s) > 48 {
+		s = s[:48]
 	}
 	return s
 }
